@@ -78,6 +78,14 @@ def fidelity(args):
     _m = importlib.util.module_from_spec(_spec)
     _l.exec_module(_m)
     _m.sync_repo_build(fid)
+    # the simulated side of the thread-name comparison: (re)build the sim corpus binaries of the same slices from the same
+    # generator state (they may be stale or built for another seed)
+    sl_all = ['steps', 'try', 'handler', 'nest', 'ops', 'wrap', 'pos']
+    index, _progs = _m.generate('quick', seed, sl_all)
+    failures, herr = _m.build_with_stubs('quick', seed, sl_all, index)
+    if herr or failures:
+        print('fidelity: the simulated corpus does not build: %s %s' % (herr, list(failures)[:3]))
+        return 2
     p = subprocess.run(['cargo', 'build', '--offline', '-p', 'fcorpus', '--bins'], cwd=fid, env=dict(ENV, CARGO_NET_OFFLINE='true'),
                        stdout=subprocess.PIPE, stderr=subprocess.PIPE, text=True)
     if p.returncode != 0:
